@@ -89,6 +89,18 @@ func c04Corpus() []string {
 		"reset U=" + k + "," + a + " P=" + a + ":01 C= F= O=0", "view *",
 		"insert " + k + " 05", "remove " + a, "view *", "get " + k, "get " + a, "insert " + k + " 02", "commit",
 		"view *", "get " + k, "remove " + k, "commit", "view *", "get " + k,
+		// allocates/writes bookkeeping through create, overwrite, remove and every rollback
+		"reset U=" + k + "," + a + " P=" + k + ":09 C= F= O=0", "view *",
+		"insert " + a + " 01", "keyops", "insert " + a + " " + verifh.Hex(make([]byte, 65)), "keyops", "remove " + a, "keyops",
+		"remove " + k, "insert " + k + " 05", "keyops", "remove " + k, "keyops",
+		"rollback 5", "keyops", "rollback 4", "keyops", "rollback 3", "keyops", "rollback 2", "keyops", "rollback 1", "keyops", "rollback 0", "keyops", "commit",
+		// two views open on one TState at once (the Go view holds *TState): the second view sees
+		// what the first commits while it is open
+		"reset U=" + k + "," + a + " P=" + k + ":09 C= F= O=0", "view " + k + ":7", "remove " + k,
+		"view2 " + a + ":7", "insert " + a + " 01", "swap", "get " + k, "commit", "get " + a, "keyops", "commit",
+		"view *", "get " + k, "get " + a,
+		"reset U=" + k + " P=" + k + ":09 C= F= O=0", "view *", "get " + k, "view2 *", "remove " + k, "commit",
+		"get " + k, "insert " + k + " 09", "get " + k, "keyops", "opindex", "commit", "view *", "get " + k,
 	}
 }
 
@@ -104,49 +116,72 @@ func c04Generate(r *verifh.Run) []string {
 	g := &c04Gen{r: r, vals: c04Values()}
 	g.out = append(g.out, c04Corpus()...)
 	g.exhaustive(r.N(4, 5))
-	nseq := r.N(12000, 300000)
+	nseq := r.N(8000, 300000)
 	for i := 0; i < nseq; i++ {
 		g.randomSeq()
+	}
+	for i := 0; i < r.N(1500, 30000); i++ {
+		g.twoViewSeq()
 	}
 	return g.out
 }
 
-// exhaustive: all op sequences of length <= maxLen over two keys, from six base configurations
-// of the first key (parent has it or not x block-level untouched / value / delete).
+// exhaustive: every sequence of length <= maxLen over the nine-symbol alphabet below (two keys),
+// from twelve base configurations: first key in parent or not x block-level untouched / value /
+// delete, second key in parent or not. Odd base configurations run under a state.Keys scope
+// granting All on both keys, even ones under CompletePermissions. Every sequence ends with
+// get k1, get k2, keyops, opindex, commit; since all prefixes are themselves enumerated, every
+// intermediate state is observed at the end of its own sequence.
 func (g *c04Gen) exhaustive(maxLen int) {
 	k1, k2 := hx(c04KB), hx(c04KA)
 	alphabet := []string{
 		"insert " + k1 + " 09", "insert " + k1 + " 05", "remove " + k1,
 		"insert " + k2 + " 09", "remove " + k2,
-		"rollback 0", "rollback 1", "rollback 2",
+		"rollback 0", "rollback 1", "rollback 2", "commit",
 	}
 	bases := []string{}
-	for _, p := range []string{"", k1 + ":09"} {
-		for _, c := range []string{"", k1 + ":05", k1 + ":x"} {
-			bases = append(bases, fmt.Sprintf("reset U=%s,%s P=%s C=%s F= O=0", k1, k2, p, c))
+	for _, p2 := range []string{"", "," + k2 + ":09"} {
+		for _, p := range []string{"", k1 + ":09"} {
+			for _, c := range []string{"", k1 + ":05", k1 + ":x"} {
+				ps := p + p2
+				if p == "" && p2 != "" {
+					ps = p2[1:]
+				}
+				bases = append(bases, fmt.Sprintf("reset U=%s,%s P=%s C=%s F= O=0", k1, k2, ps, c))
+			}
 		}
 	}
 	n := 0
-	var rec func(base string, seq []string)
-	rec = func(base string, seq []string) {
+	var rec func(base, view string, seq []string)
+	rec = func(base, view string, seq []string) {
 		if len(seq) > 0 {
-			g.out = append(g.out, base, "view *")
-			g.out = append(g.out, seq...)
-			g.out = append(g.out, "get "+k1, "get "+k2, "opindex", "commit")
+			g.out = append(g.out, base, view)
+			for _, o := range seq {
+				g.out = append(g.out, o)
+				if o == "commit" {
+					g.out = append(g.out, view)
+				}
+			}
+			g.out = append(g.out, "get "+k1, "get "+k2, "keyops", "opindex", "commit")
 			n++
 		}
 		if len(seq) == maxLen {
 			return
 		}
 		for _, a := range alphabet {
-			rec(base, append(seq[:len(seq):len(seq)], a))
+			rec(base, view, append(seq[:len(seq):len(seq)], a))
 		}
 	}
-	for _, b := range bases {
-		rec(b, nil)
+	for i, b := range bases {
+		view := "view *"
+		if i%2 == 1 {
+			view = "view " + k1 + ":7," + k2 + ":7"
+		}
+		rec(b, view, nil)
 	}
 	g.r.Extra("exhaustive_sequences", n)
 	g.r.Extra("exhaustive_max_len", maxLen)
+	g.r.Extra("exhaustive_bases", len(bases))
 }
 
 func (g *c04Gen) randomSeq() {
@@ -234,8 +269,10 @@ func (g *c04Gen) randomSeq() {
 		case x < 72:
 			g.out = append(g.out, "remove "+hx(k))
 			est++
-		case x < 77:
+		case x < 75:
 			g.out = append(g.out, "opindex")
+		case x < 77:
+			g.out = append(g.out, "keyops")
 		case x < 92:
 			n := 0
 			if est > 0 {
@@ -260,5 +297,74 @@ func (g *c04Gen) randomSeq() {
 	for _, k := range ks[:2] {
 		g.out = append(g.out, "get "+hx(k))
 	}
-	g.out = append(g.out, "opindex", "commit")
+	g.out = append(g.out, "keyops", "opindex", "commit")
+}
+
+// twoViewSeq: two views open on one TState at the same time, operations and commits interleaved
+// (tie only: the model view is handed the shared TState before every op, as the Go view reads
+// through its *TState; the single-view spec oracle is off for these histories).
+func (g *c04Gen) twoViewSeq() {
+	rng := g.r.RNG
+	ks := []string{c04KA, c04KB, c04KD}
+	var u, p []string
+	for _, k := range ks {
+		u = append(u, hx(k))
+		if rng.Chance(50) {
+			p = append(p, hx(k)+":"+verifh.Hex(g.val()))
+		}
+	}
+	g.out = append(g.out, fmt.Sprintf("reset U=%s P=%s C= F= O=0", strings.Join(u, ","), strings.Join(p, ",")))
+	scope := func() string {
+		if rng.Chance(40) {
+			return "*"
+		}
+		var sc []string
+		for _, k := range ks {
+			if rng.Chance(60) {
+				sc = append(sc, hx(k)+":7")
+			}
+		}
+		if len(sc) == 0 {
+			return "-"
+		}
+		return strings.Join(sc, ",")
+	}
+	g.out = append(g.out, "view "+scope())
+	open := 1
+	second := false
+	for i := 0; i < 4+rng.Intn(20); i++ {
+		k := hx(ks[rng.Intn(len(ks))])
+		switch x := rng.Intn(100); {
+		case x < 20:
+			g.out = append(g.out, "get "+k)
+		case x < 45:
+			g.out = append(g.out, "insert "+k+" "+verifh.Hex(g.val()))
+		case x < 60:
+			g.out = append(g.out, "remove "+k)
+		case x < 68:
+			g.out = append(g.out, fmt.Sprintf("rollback %d", rng.Intn(3)))
+		case x < 75:
+			g.out = append(g.out, "keyops")
+		case x < 87:
+			if open == 1 && !second {
+				g.out = append(g.out, "view2 "+scope())
+				open, second = 2, true
+			} else if open == 2 {
+				g.out = append(g.out, "swap")
+			}
+		default:
+			if open > 0 {
+				g.out = append(g.out, "commit")
+				open--
+				if open == 0 {
+					g.out = append(g.out, "view "+scope())
+					open, second = 1, false
+				}
+			}
+		}
+	}
+	for _, k := range ks {
+		g.out = append(g.out, "get "+hx(k))
+	}
+	g.out = append(g.out, "keyops", "commit")
 }
